@@ -15,7 +15,7 @@
 (* milliseconds, DateTime in Unix seconds).                                 *)
 (***************************************************************************)
 EXTENDS VariantOps, Json, TLC
-VARIABLE l
+VARIABLES l, held      \* held: type and payload of every result the long-lived manager of the current history has handed out
 Trace == ndJsonDeserialize("trace.ndjson")
 F(ok, name) == IF ok THEN "" ELSE name \o "; "
 
@@ -82,12 +82,23 @@ AliasFails(e) ==
   IF e.o1 = "panic" \/ e.o2 = "panic" THEN "a conversion crashed; "
   ELSE IF ~e.scribbled THEN ""
   ELSE F(e.o2 = e.o1 /\ e.r2.t = e.r1.t /\ e.r2.s = e.r1.s, "a conversion hands out a shared result: what a caller does to one result changes later results")
-Fails(e) == CASE e.op = "alias" -> AliasFails(e) [] e.op = "conv" -> ConvFails(e) [] e.op = "both" -> BothFails(e) [] e.op = "chain" -> ChainFails(e) [] OTHER -> ""
-Init == l = 1
+\* History on one manager (hstart, hconv*, hend): a conversion is a function of its argument alone - it equals what a fresh
+\* manager returns for a fresh copy of the value - and a result, once handed out, is a value of its own that no later call changes.
+HConvFails(e) ==
+  IF e.outcome = "panic" THEN "the conversion crashed; "
+  ELSE F(e.outcome = e.fo /\ (e.outcome = "value" => e.r.t = e.fr.t /\ e.r.s = e.fr.s),
+         "a conversion on a long-lived manager differs from the same conversion on a fresh manager (it depends on earlier calls or on the identity of the argument)")
+HEndFails(e, h) == F(e.now = h, "a result handed out earlier was changed by later conversions on the same manager")
+Fails(e) == CASE e.op = "hconv" -> HConvFails(e) [] e.op = "hend" -> HEndFails(e, held) [] e.op = "alias" -> AliasFails(e) [] e.op = "conv" -> ConvFails(e) [] e.op = "both" -> BothFails(e) [] e.op = "chain" -> ChainFails(e) [] OTHER -> ""
+Init == l = 1 /\ held = <<>>
 Next ==
   /\ l <= Len(Trace)
   /\ l' = l + 1
+  /\ held' = LET e == Trace[l] IN
+             CASE e.op = "hstart" -> <<>>
+               [] e.op = "hconv" -> IF e.keep THEN Append(held, <<e.r.t, e.r.s>>) ELSE held
+               [] OTHER -> held
   /\ LET f == Fails(Trace[l]) IN f = "" \/ PrintT("VERIF-FAIL " \o ToString(l) \o " " \o f)
-Spec == Init /\ [][Next]_l
+Spec == Init /\ [][Next]_<<l, held>>
 Accepted == TLCGet("stats").diameter - 1 = Len(Trace)
 =============================================================================
